@@ -91,6 +91,7 @@ def build(name, files, P, version, single=False, order=None, pads="none", traili
                 flist.append({"length": len(data), "path": list(comps)})
                 if attrs:
                     flist[-1]["attr"] = ATTR[len(data) % 3]
+                    flist[-1]["md5sum"] = "%032x" % (len(data) * 2654435761 % 2 ** 128)   # optional key, any 32 hex digits
                 stream += data
                 gap = (-len(data)) % P
                 last = n == len(ordered) - 1
